@@ -96,6 +96,7 @@ structure ScopeSt where
   parent : Option Nat
   locals : List String        -- a set (insertion order kept, no duplicates)
   globalsDecl : List String   -- `scope.globals`, a set
+  nonlocalsDecl : List String -- `scope.nonlocals`, a set
   flow : Nat                  -- `scope.flow`
   returns : Nat               -- `len(scope.returns)` (FuncScope)
   deriving Repr, Inhabited
@@ -122,8 +123,8 @@ structure St where
 /-- `SourceScope(source)`: the builtin scope, the module scope and its 'top' flow -/
 def St.init : St :=
   { flows := [{ id := 0, scope := 1, names := [], parents := [] }],
-    scopes := [ { id := 0, kind := .builtin, parent := none, locals := [], globalsDecl := [], flow := 0, returns := 0 },
-                { id := 1, kind := .module, parent := some 0, locals := [], globalsDecl := [], flow := 0, returns := 0 } ],
+    scopes := [ { id := 0, kind := .builtin, parent := none, locals := [], globalsDecl := [], nonlocalsDecl := [], flow := 0, returns := 0 },
+                { id := 1, kind := .module, parent := some 0, locals := [], globalsDecl := [], nonlocalsDecl := [], flow := 0, returns := 0 } ],
     cur := 0, infos := [], globalNames := [], stars := [], attrAssigns := [], imports := [], flowAttrs := [] }
 
 def modifyAt {α} : List α → Nat → (α → α) → List α
@@ -161,14 +162,22 @@ def St.isGlobalDecl (st : St) (scope : Nat) (name : String) : Bool :=
   | some s => s.globalsDecl.contains name
   | none => false
 
+def St.isNonlocalDecl (st : St) (scope : Nat) (name : String) : Bool :=
+  match st.scopes[scope]? with
+  | some s => s.nonlocalsDecl.contains name
+  | none => false
+
 /-- `flow.add_name(name)` (scope.py): the name takes the flow's scope; a name declared `global` in that
-    scope goes to `top._global_names`, any other becomes a local and is `insert_loc`ed -/
+    scope goes to `top._global_names`; a name declared `nonlocal` is `insert_loc`ed but is NOT a local of
+    the scope; any other becomes a local and is `insert_loc`ed -/
 def St.addName (st : St) (f : Nat) (b : Binding) : St :=
   let sc := st.flowScope f
   let r : NameRec := { id := st.infos.length, name := b.name, loc := b.loc, scope := sc }
   let st := { st with infos := b.info :: st.infos }
   if st.isGlobalDecl sc b.name then
     { st with globalNames := dictSet st.globalNames r }
+  else if st.isNonlocalDecl sc b.name then
+    { st with flows := modifyAt st.flows f (fun fr => { fr with names := insertLoc fr.names r }) }
   else
     { st with scopes := modifyAt st.scopes sc (fun s => { s with locals := addSet s.locals b.name }),
               flows := modifyAt st.flows f (fun fr => { fr with names := insertLoc fr.names r }) }
@@ -195,12 +204,16 @@ def St.newScope (st : St) (kind : ScopeKind) : St × Nat × Nat :=
   let sid := st.scopes.length
   let fid := st.flows.length
   ({ st with scopes := st.scopes ++ [{ id := sid, kind := kind, parent := some st.curScope, locals := [],
-                                        globalsDecl := [], flow := fid, returns := 0 }],
+                                        globalsDecl := [], nonlocalsDecl := [], flow := fid, returns := 0 }],
              flows := st.flows ++ [{ id := fid, scope := sid, names := [], parents := [] }] }, sid, fid)
 
 /-- `self.flow.scope.globals.update(names)` -/
 def St.globalDecl (st : St) (names : List String) : St :=
   { st with scopes := modifyAt st.scopes st.curScope (fun s => { s with globalsDecl := names.foldl addSet s.globalsDecl }) }
+
+/-- `self.flow.scope.nonlocals.update(names)` -/
+def St.nonlocalDecl (st : St) (names : List String) : St :=
+  { st with scopes := modifyAt st.scopes st.curScope (fun s => { s with nonlocalsDecl := names.foldl addSet s.nonlocalsDecl }) }
 
 /-- visit_Return: `returns.append(node.value)` when the current scope is a FuncScope -/
 def St.addReturn (st : St) : St :=
@@ -235,6 +248,7 @@ inductive Instr where
   | flowAttr (pos : Option Pos) (id : String) (flow : FlowRef) -- name.flow = flow   (an ast.Name node)
   | attrAssign (pos : Option Pos)                              -- top.add_attr_assign(self.flow.scope, attr, …)
   | globalDecl (names : List String)                           -- self.flow.scope.globals.update(names)
+  | nonlocalDecl (names : List String)                         -- self.flow.scope.nonlocals.update(names)
   | addReturn                                                  -- visit_Return's bookkeeping
   | addImport (name : String)                                  -- top._imports.append(name)
   | addStar (loc : Pos) (start : StartSpec) (module : String)  -- top._star_imports.append((loc, find_id_loc('*', alias_start(node, a)), module, self.flow))
@@ -292,6 +306,7 @@ def execInstr (lines : List Text.Str) (rec : Rec) (i : Instr) (env : Env) (st : 
   | .flowAttr p id f => pure (env, { st with flowAttrs := (p, id, f.resolve env st) :: st.flowAttrs })
   | .attrAssign p => pure (env, { st with attrAssigns := (st.curScope, p) :: st.attrAssigns })
   | .globalDecl names => pure (env, st.globalDecl names)
+  | .nonlocalDecl names => pure (env, st.nonlocalDecl names)
   | .addReturn => pure (env, st.addReturn)
   | .addImport n => pure (env, { st with imports := n :: st.imports })
   | .addStar loc start m =>
@@ -815,6 +830,10 @@ def compileGlobal (n : Ast) : M Prog := do
   let names ← getStrList n "names"
   pure [.globalDecl names]
 
+def compileNonlocal (n : Ast) : M Prog := do
+  let names ← getStrList n "names"
+  pure [.nonlocalDecl names]
+
 def nameId (n : Ast) : String :=
   match n.field? "id" with
   | some (.str s) => s
@@ -838,7 +857,7 @@ def compileNamedExpr (n : Ast) : M Prog := do
 def specialKinds : List String :=
   ["Assign", "AnnAssign", "If", "For", "AsyncFor", "While", "Import", "ImportFrom", "TryExcept", "Try",
    "FunctionDef", "AsyncFunctionDef", "Lambda", "ClassDef", "Return", "ListComp", "GeneratorExp", "DictComp",
-   "SetComp", "With", "AsyncWith", "Global", "Name", "NamedExpr"]
+   "SetComp", "With", "AsyncWith", "Global", "Nonlocal", "Name", "NamedExpr"]
 
 /-- `NodeVisitor.visit(node)`'s dispatch on the class name, each visit method up to its visits -/
 def compile (n : Ast) : M Prog :=
@@ -865,6 +884,7 @@ def compile (n : Ast) : M Prog :=
   | "With" => compileWith n
   | "AsyncWith" => compileWith n
   | "Global" => compileGlobal n
+  | "Nonlocal" => compileNonlocal n
   | "Name" => compileName n
   | "NamedExpr" => compileNamedExpr n
   | _ => pure (generic n)
